@@ -91,6 +91,9 @@ func report(o *options, p *Program, units []*UnitResult, loadSecs, genSecs, solv
 	knownHits := []string{}
 	undecided := []string{}
 	replayDir := filepath.Join(o.verif, "replay", o.prop)
+	if o.noEvidence {
+		replayDir = filepath.Join(os.TempDir(), "govc-selftest-replay", o.prop)
+	}
 	os.MkdirAll(replayDir, 0o755)
 
 	clauseProps := func(u *UnitResult, ob *Obligation) []string { return ob.props }
@@ -190,7 +193,7 @@ func report(o *options, p *Program, units []*UnitResult, loadSecs, genSecs, solv
 			fmt.Printf("  %-8s %6.2fs %-8s %s\n", a.Result, a.Seconds, a.Solver, a.Name)
 		}
 	}
-	if o.prop != "" && o.unit == "" {
+	if o.prop != "" && o.unit == "" && !o.noEvidence {
 		writeEvidence(o, p, all, obligations, discharged, violations, wins, sumSecs, maxSecs, funcsUnder, pureFuncs, trusted,
 			keys(abstracted), keys(assumed), keys(pureUsed), knownHits, undecided, vacuityChecks, wall)
 	}
